@@ -103,6 +103,7 @@ pub fn run(sim: &Sim, _idx: u64) {
         let b = encode_body(sim, cfg.role, ProstCodec::<Msg, Msg>::raw_encoder(bs), items(()), 0, tenc, None, 0);
         (a, b)
     } else {
+        crate::rawcodec::draw_styles(sim);
         let rc = RawCfg { enc_buffer: cfg.enc_buffer, enc_yield: cfg.enc_yield, ..RawCfg::default() };
         let items = |_: ()| sers.iter().map(|s| Ok(RawMsg(Bytes::from(s.clone())))).collect::<Vec<_>>();
         sim.ev(|| "encode under drawn schedule".into());
@@ -191,7 +192,7 @@ pub fn run(sim: &Sim, _idx: u64) {
     if let Some(t) = &sent_trailers {
         evs.push(Ev::Trailers(t.clone()));
     }
-    let body = Segmented::new(SimBody::new(sim, "wire", evs, cfg.body_pending, sim.chance(1, 4)));
+    let body = Segmented::new(SimBody::new(sim, "wire", evs, cfg.body_pending, sim.chance(1, 4)).with_size_hint(if sim.chance(1, 3) { crate::seams::SizeHint::ExactTrue } else { crate::seams::SizeHint::Unknown }));
     let extra = sim.range(1, 4) as u32;
     let want_status = cfg.role == Role::Server;
 
